@@ -180,12 +180,34 @@ def load_registry():
     return json.load(open(os.path.join(HERE, 'registry.json')))
 
 
-def audit_list(mods, thms):
+def audit_list(mods, thms, failed=None):
     """`#print axioms` for the given theorems; returns (n, n_ok, bad, raw output)"""
     mods = sorted(set(mods))
     # a module that did not build (an obligation in it, or in something it imports, failed) has no .olean: its theorems
     # are reported as such, the others are audited
     built = [m for m in mods if os.path.exists(os.path.join(LEAN, '.lake', 'build', 'lib', 'lean', *m.split('.')) + '.olean')]
+    # … and a module whose source imports (directly or not) a module that failed in this build only has a stale .olean from an
+    # earlier build: importing it would make the whole audit file fail, so it counts as unbuilt too
+    failed = set(failed or [])
+    if failed:
+        memo = {}
+
+        def tainted(m, depth=0):
+            if m in memo:
+                return memo[m]
+            memo[m] = False
+            if m in failed:
+                memo[m] = True
+                return True
+            pth = os.path.join(LEAN, *m.split('.')) + '.lean'
+            if not os.path.exists(pth) or depth > 40:
+                return False
+            for imp in re.findall(r'^import\s+(OpyVerif\.\S+)', open(pth).read(), re.M):
+                if tainted(imp, depth + 1):
+                    memo[m] = True
+                    return True
+            return False
+        built = [m for m in built if not tainted(m)]
     unbuilt = [m for m in mods if m not in built]
     mods = built
     src = '\n'.join(f'import {m}' for m in mods) + '\n' + '\n'.join(f'#print axioms {t}' for t in thms) + '\n'
